@@ -283,8 +283,8 @@ func constString(v ssa.Value) (string, bool) {
 func returnsOf(fn *ssa.Function) []*ssa.Return {
 	var out []*ssa.Return
 	for _, b := range fn.Blocks {
-		if len(b.Instrs) == 0 {
-			continue
+		if len(b.Instrs) == 0 || b == fn.Recover {
+			continue // the recover block is only entered after a recovered panic
 		}
 		if r, ok := b.Instrs[len(b.Instrs)-1].(*ssa.Return); ok {
 			out = append(out, r)
@@ -410,9 +410,13 @@ func (ff *FuncFacts) SuccessReturns() []*ssa.Return {
 	return out
 }
 
-// unspill looks through go/ssa's result/closure spilling: a load from a local
-// Alloc that has exactly one store in the function which dominates the load.
-// It never looks through address-taken memory written elsewhere.
+// unspill looks through go/ssa's spilling of variables into memory cells
+// (results of functions with defer, variables captured by closures): a load
+// from a local Alloc is replaced by the value of its unique reaching store —
+// the store that dominates the load with no other write to the cell on any
+// path in between (DESIGN A.3).  Writes are: stores to the cell, calls that
+// receive the cell's address, calls of closures that capture and write it,
+// and rundefers when a deferred closure writes it.
 func unspill(v ssa.Value) ssa.Value {
 	for i := 0; i < 8; i++ {
 		u, ok := v.(*ssa.UnOp)
@@ -423,33 +427,145 @@ func unspill(v ssa.Value) ssa.Value {
 		if !ok {
 			return v
 		}
-		var st *ssa.Store
-		n := 0
-		escapes := false
-		for _, r := range *a.Referrers() {
-			switch r := r.(type) {
-			case *ssa.Store:
-				if r.Addr == a {
-					st = r
-					n++
-				} else {
-					escapes = true
-				}
-			case *ssa.UnOp:
-			case *ssa.DebugRef:
-			default:
-				escapes = true
-			}
-		}
-		if n != 1 || escapes || st == nil {
-			return v
-		}
-		if !instrDominates(st, u) {
+		st := reachingStore(a, u)
+		if st == nil {
 			return v
 		}
 		v = st.Val
 	}
 	return v
+}
+
+type cellInfo struct {
+	stores []*ssa.Store
+	other  []ssa.Instruction // other instructions that may write the cell
+	opaque bool              // address escapes in a way we do not model
+}
+
+var cellCache = map[*ssa.Alloc]*cellInfo{}
+
+func closureWritesFreeVar(fn *ssa.Function, idx int, seen map[*ssa.Function]bool) bool {
+	if seen[fn] || idx >= len(fn.FreeVars) {
+		return false
+	}
+	seen[fn] = true
+	fv := fn.FreeVars[idx]
+	w := false
+	for _, r := range *fv.Referrers() {
+		switch x := r.(type) {
+		case *ssa.Store:
+			if x.Addr == ssa.Value(fv) {
+				w = true
+			}
+		case *ssa.UnOp, *ssa.DebugRef:
+		case *ssa.MakeClosure:
+			for j, b := range x.Bindings {
+				if b == ssa.Value(fv) && closureWritesFreeVar(x.Fn.(*ssa.Function), j, seen) {
+					w = true
+				}
+			}
+		default:
+			w = true // address passed on: assume written
+		}
+	}
+	return w
+}
+
+func cellOf(a *ssa.Alloc) *cellInfo {
+	if ci, ok := cellCache[a]; ok {
+		return ci
+	}
+	ci := &cellInfo{}
+	cellCache[a] = ci
+	fn := a.Parent()
+	var writers []*ssa.MakeClosure
+	for _, r := range *a.Referrers() {
+		switch x := r.(type) {
+		case *ssa.Store:
+			if x.Addr == ssa.Value(a) {
+				ci.stores = append(ci.stores, x)
+			} else {
+				ci.opaque = true // the address itself is stored somewhere
+			}
+		case *ssa.UnOp, *ssa.DebugRef:
+		case *ssa.MakeClosure:
+			for j, b := range x.Bindings {
+				if b == ssa.Value(a) && closureWritesFreeVar(x.Fn.(*ssa.Function), j, map[*ssa.Function]bool{}) {
+					writers = append(writers, x)
+				}
+			}
+		case *ssa.FieldAddr, *ssa.IndexAddr, *ssa.Slice:
+			ci.opaque = true // aggregate cell: not a scalar spill
+		default:
+			if _, isCall := r.(ssa.CallInstruction); isCall {
+				ci.other = append(ci.other, r)
+			} else {
+				ci.opaque = true
+			}
+		}
+	}
+	if len(writers) > 0 {
+		// every use of a writing closure as a call target / defer / go is a write point
+		deferred := false
+		for _, mc := range writers {
+			for _, r := range *mc.Referrers() {
+				switch x := r.(type) {
+				case *ssa.Defer:
+					deferred = true
+				case *ssa.Call, *ssa.Go:
+					ci.other = append(ci.other, x.(ssa.Instruction))
+				case *ssa.DebugRef:
+				default:
+					ci.opaque = true // closure value escapes
+				}
+			}
+		}
+		if deferred {
+			allInstrs(fn, func(in ssa.Instruction) {
+				if rd, ok := in.(*ssa.RunDefers); ok {
+					ci.other = append(ci.other, rd)
+				}
+			})
+		}
+	}
+	return ci
+}
+
+// reachingStore returns the unique store to cell a that reaches load u, or nil.
+func reachingStore(a *ssa.Alloc, u *ssa.UnOp) *ssa.Store {
+	ci := cellOf(a)
+	if ci.opaque || len(ci.stores) == 0 {
+		return nil
+	}
+	// candidate: the dominating store closest to the load
+	var S *ssa.Store
+	for _, st := range ci.stores {
+		if instrDominates(st, u) {
+			if S == nil || instrDominates(S, st) {
+				S = st
+			}
+		}
+	}
+	if S == nil {
+		return nil
+	}
+	between := func(o ssa.Instruction) bool {
+		if o == ssa.Instruction(S) {
+			return false
+		}
+		return canReachWithout(S, o, map[ssa.Instruction]bool{u: true}) && canReachWithout(o, u, map[ssa.Instruction]bool{S: true})
+	}
+	for _, st := range ci.stores {
+		if between(st) {
+			return nil
+		}
+	}
+	for _, o := range ci.other {
+		if between(o) {
+			return nil
+		}
+	}
+	return S
 }
 
 // instrDominates: instruction a is executed before b on every path to b.
